@@ -2,10 +2,140 @@
 C08 — NV transpilation preserves program behaviour, not only gates.
 Property theorems only; helper lemmas live in Lemmas/Transpile*.lean.
 -/
-import NetqasmVerif.Model.Transpile
+import NetqasmVerif.Lemmas.TranspileStruct
 import NetqasmVerif.Gen.NvExpand
 namespace NQ.C08
 open NQ NQ.Tr
+
+/-! ## Facts about the generated tables (re-decided by the kernel whenever /repo changes them) -/
+
+/-- no expansion emits a branch/jump class; branch classes are not gate classes; no class of the
+flavour is a debug marker; the padding instruction is not a debug marker — for both debug and both
+hardware settings -/
+theorem expansions_have_no_branch : ∀ d h : Bool,
+    TemplatesNoBranch (Gen.cfg d h) = true ∧ InfosWF (Gen.cfg d h) = true ∧
+    isDebug (Gen.cfg d h).pad = false := by
+  decide +kernel
+
+/-! ## The index map and the branch targets (all vanilla subroutines, any length)
+
+`cs` are the per-instruction chunks of the pass (`Chunks`), `tposS cs i` the number of *serialised*
+instructions (debug markers excluded) before chunk `i`, `patchOf` the retargeting of the run.
+`serialise out` is what the controller receives. -/
+
+/-- `index_changes[i]` is the serialised start of the expansion of instruction `i`: the serialised
+output splits as `pre ++ (expansion of S[i]) ++ post` with `|pre| = index_changes[i]`. -/
+theorem index_is_expansion_start (cfg : Cfg) (hpad : isDebug cfg.pad = false) (S out : List Instr)
+    (h : transpile cfg S = .ok out) :
+    ∃ cs idx, Chunks cfg [] [] S cs ∧ indexChanges cfg S = some idx ∧ idx.length = S.length ∧
+      ∀ i, i < S.length → idx[i]? = some (tposS cs i) ∧
+        ∃ c pre post, cs[i]? = some c ∧
+          serialise out = pre ++ serialise (c.map (patchOf cfg S cs)) ++ post ∧ pre.length = tposS cs i := by
+  obtain ⟨cs, hc, hidx, hout, _⟩ := transpile_structure h
+  have hlen := hc.length_eq
+  refine ⟨cs, starts 0 cs, hc, hidx, by rw [starts_length, hlen], ?_⟩
+  intro i hi
+  have hi' : i < cs.length := by omega
+  refine ⟨by simpa using starts_getElem? 0 cs i hi', cs[i], ?_⟩
+  obtain ⟨pre, post, h1, h2⟩ := code_at (cfg := cfg) (S := S) hpad i hi'
+  exact ⟨pre, post, by simp, by rw [hout]; exact h1, h2⟩
+
+/-- the index map is monotone -/
+theorem index_monotone (cfg : Cfg) (S out : List Instr) (h : transpile cfg S = .ok out)
+    (idx : List Nat) (hidx : indexChanges cfg S = some idx) (i j a b : Nat) (hij : i ≤ j)
+    (ha : idx[i]? = some a) (hb : idx[j]? = some b) : a ≤ b := by
+  obtain ⟨cs, hc, hidx', _, _⟩ := transpile_structure h
+  rw [hidx] at hidx'
+  simp only [Option.some.injEq] at hidx'
+  subst hidx'
+  have hj : j < cs.length := by
+    have := (List.getElem?_eq_some_iff.1 hb).1
+    simpa [starts_length] using this
+  rw [starts_getElem? 0 cs i (by omega)] at ha
+  rw [starts_getElem? 0 cs j hj] at hb
+  simp only [Nat.zero_add, Option.some.injEq] at ha hb
+  subst ha; subst hb
+  exact tposS_mono cs hij
+
+/-- the output is the concatenation of the patched chunks, plus the padding exactly when some
+emitted branch targeted the original end -/
+theorem output_structure (cfg : Cfg) (S out : List Instr) (h : transpile cfg S = .ok out) :
+    ∃ cs, Chunks cfg [] [] S cs ∧ cs.length = S.length ∧
+      out = cs.flatten.map (patchOf cfg S cs) ++ (if endTargeted cfg S cs then [cfg.pad] else []) := by
+  obtain ⟨cs, hc, _, hout, _⟩ := transpile_structure h
+  exact ⟨cs, hc, hc.length_eq, hout⟩
+
+/-- **Every `jmp`/`b**` lands on the expansion of its original target.** For the branch `x = S[p]`
+with original target `t`: `0 ≤ t ≤ len S`; in the serialised output `x` sits at `index_changes[p]`
+with target `tposS cs t`; if `t < len S` the serialised output has the expansion of `S[t]` exactly at
+that position; if `t = len S` the padding instruction was appended and sits exactly there. -/
+theorem branch_lands_on_expansion (cfg : Cfg) (hT : TemplatesNoBranch cfg = true) (hW : InfosWF cfg = true)
+    (hpad : isDebug cfg.pad = false) (S out : List Instr) (h : transpile cfg S = .ok out)
+    (p : Nat) (x : Instr) (t : Int) (hx : S[p]? = some x) (hl : lineOf cfg x = some t) :
+    ∃ cs, Chunks cfg [] [] S cs ∧ 0 ≤ t ∧ t.toNat ≤ S.length ∧
+      (∃ pre post, serialise out = pre ++ [setLine cfg x (tposS cs t.toNat)] ++ post ∧ pre.length = tposS cs p) ∧
+      (t.toNat < S.length → ∃ c pre post, cs[t.toNat]? = some c ∧
+          serialise out = pre ++ serialise (c.map (patchOf cfg S cs)) ++ post ∧ pre.length = tposS cs t.toNat) ∧
+      (t.toNat = S.length → ∃ pre, serialise out = pre ++ [cfg.pad] ∧ pre.length = tposS cs t.toNat) := by
+  obtain ⟨cs, hc, _, hout, hok⟩ := transpile_structure h
+  have hlen := hc.length_eq
+  obtain ⟨hp, hxe⟩ := List.getElem?_eq_some_iff.1 hx
+  have hp' : p < cs.length := by omega
+  -- the chunk of a branch is the branch itself
+  have hng : isGate cfg x = false := not_gate_of_line hW hl
+  have hchunk : cs[p] = [x] := by
+    rcases hc.chunk_cases hT p hp hp' with ⟨hg, _⟩ | ⟨_, hcp⟩
+    · rw [hxe, hng] at hg; cases hg
+    · rw [hcp, hxe]
+  have hmem : x ∈ cs.flatten :=
+    List.mem_flatten.2 ⟨cs[p], List.getElem_mem hp', by rw [hchunk]; exact List.mem_singleton.2 rfl⟩
+  obtain ⟨h0, hle, hpatch⟩ := patch_branch hlen hl (hok x hmem)
+  have hnd : isDebug x = false := by
+    unfold lineOf at hl
+    cases hi : infoOf cfg x.cls with
+    | none => rw [hi] at hl; cases hl
+    | some info => exact not_debug_of_info hW hi
+  refine ⟨cs, hc, h0, hle, ?_, ?_, ?_⟩
+  · obtain ⟨pre, post, h1, h2⟩ := code_at (cfg := cfg) (S := S) hpad p hp'
+    refine ⟨pre, post, ?_, h2⟩
+    rw [hout, h1, hchunk]
+    have : isDebug (patchOf cfg S cs x) = false := by
+      unfold patchOf isDebug; rw [patchOne_cls]; exact hnd
+    rw [hpatch] at this
+    simp [serialise, hpatch, this]
+  · intro ht
+    have ht' : t.toNat < cs.length := by omega
+    obtain ⟨pre, post, h1, h2⟩ := code_at (cfg := cfg) (S := S) hpad t.toNat ht'
+    exact ⟨cs[t.toNat], pre, post, by simp, by rw [hout]; exact h1, h2⟩
+  · intro ht
+    have he : endTargeted cfg S cs = true := by
+      unfold endTargeted
+      refine List.any_eq_true.2 ⟨x, hmem, ?_⟩
+      have : t = (S.length : Int) := by omega
+      simp [hl, this]
+    obtain ⟨pre, h1, h2⟩ := pad_at (cfg := cfg) (S := S) hpad he
+    exact ⟨pre, by rw [hout]; exact h1, by rw [h2, ht, hlen]⟩
+
+/-- **Non-gate instructions appear exactly once and in order**: erasing the chunks that come from
+gates from the output chunks, and the gates from the input, gives equal lists up to the target
+patching `patchOf`. -/
+theorem nongate_order (cfg : Cfg) (S out : List Instr) (h : transpile cfg S = .ok out) :
+    ∃ cs, Chunks cfg [] [] S cs ∧
+      out = cs.flatten.map (patchOf cfg S cs) ++ (if endTargeted cfg S cs then [cfg.pad] else []) ∧
+      (((S.zip cs).filter (fun q => !isGate cfg q.1)).map (fun q => q.2.map (patchOf cfg S cs))).flatten
+        = (S.filter (fun i => !isGate cfg i)).map (patchOf cfg S cs) := by
+  obtain ⟨cs, hc, _, hout, _⟩ := transpile_structure h
+  refine ⟨cs, hc, hout, ?_⟩
+  have := hc.nongate
+  have h2 : ((S.zip cs).filter (fun q => !isGate cfg q.1)).map (fun q => q.2.map (patchOf cfg S cs))
+      = (((S.zip cs).filter (fun q => !isGate cfg q.1)).map (·.2)).map (fun c => c.map (patchOf cfg S cs)) := by
+    simp [List.map_map]
+  rw [h2, this]
+  simp only [List.map_map, Function.comp_def, List.map_cons, List.map_nil]
+  generalize S.filter (fun i => !isGate cfg i) = l
+  induction l with
+  | nil => rfl
+  | cons a l ih => simp [ih]
 
 /-! ## Witnesses of the findings, in the model -/
 
